@@ -22,6 +22,9 @@ ATTRS = os.path.join(KANI_DIR, "attrs.txt")
 # Build configurations (DESIGN 2.4). env overrides .cargo/config.toml [env] (cargo does not force those).
 CONFIGS = {
     "default": {"env": {}, "features": ["hbs_lms_verif"]},
+    # capacity-reduced: only the LM-OTS chain capacity shrinks (265 -> 34); levels and heights stay at the default limits.
+    # Used for functions whose text does not depend on MAX_NUM_WINTERNITZ_CHAINS-sized buffers (counter arithmetic, control flow).
+    "w8": {"env": {"HBS_LMS_WINTERNITZ_PARAMETERS": "8, 8, 8, 8, 8, 8, 8, 8"}, "features": ["hbs_lms_verif"]},
     "fastverify": {"env": {"HBS_LMS_MAX_HASH_OPTIMIZATIONS": "4", "HBS_LMS_THREADS": "1"},
                    "features": ["hbs_lms_verif", "fast_verify"]},
     "L1": {"env": {"HBS_LMS_MAX_ALLOWED_HSS_LEVELS": "1", "HBS_LMS_TREE_HEIGHTS": "25",
